@@ -625,169 +625,6 @@ Proof.
     apply Hnode; auto.
 Qed.
 
-Definition field_step (st : step) : Prop := match st with SField _ => True | SItem _ _ => False end.
-
-Record plugged (root old new root' : node) (p : path) : Prop := {
-  pl_hwf : HWF cs root';
-  pl_toks : exists pre post, node_toks root = pre ++ node_toks old ++ post
-                             /\ node_toks root' = pre ++ node_toks new ++ post;
-  pl_toks_in : forall t, In t (node_toks root') -> In t (node_toks root) \/ In t (node_toks new);
-  pl_leaves_in : forall t, In t (leaves root') -> In t (leaves root) \/ In t (node_toks new);
-  pl_same : p <> [] -> root_sid root' = root_sid root /\ exempt (UNode root') = exempt (UNode root)
-                       /\ exists c s T k d, root' = Tree c s T k d
-}.
-
-Lemma plug_fields : forall p root new root' old rsid,
-  Forall field_step p -> HWF cs root -> select root p = Some old -> plug root p new = Some root' ->
-  HWF cs new -> exempt (UNode new) = false ->
-  (forall c s T k d, new = Tree c s T k d -> s = rsid) -> (p <> [] -> root_sid root = rsid) ->
-  (forall t t', In t (node_toks new) -> In t' (node_toks root) -> k_id t <> k_id t') ->
-  plugged root old new root' p.
-Proof.
-  induction p as [|st r IH]; intros root new root' old rsid Hfp Hroot Hsel Hplug Hnew Hexn Hsidn Hsidr Hfresh.
-  - simpl in Hsel, Hplug. inversion Hsel. inversion Hplug. subst. constructor.
-    + exact Hnew.
-    + exists [], []. simpl. rewrite !app_nil_r. auto.
-    + intros t Ht. right. exact Ht.
-    + intros t Ht. right. destruct (HWF_SWF _ Hnew) as ((_ & _ & _ & H4 & _) & _). auto.
-    + intro H. contradiction.
-  - inversion Hfp as [|? ? Hst Hfr]. subst. destruct st as [f|f i]; [|destruct Hst].
-    destruct root as [t0|c s T kids d]; [discriminate|].
-    cbn [select] in Hsel. cbn [plug] in Hplug.
-    destruct (kid kids f) as [sl|] eqn:Ek; try discriminate.
-    destruct (slot_node sl) as [x|] eqn:Ex; try discriminate.
-    destruct (plug x r new) as [x'|] eqn:Epx; try discriminate.
-    destruct (replace_infix (node_toks x) (node_toks x') T) as [T'|] eqn:Eri; try discriminate.
-    inversion Hplug. subst root'. clear Hplug.
-    assert (Hrs : s = rsid) by (apply (Hsidr ltac:(discriminate))). subst rsid.
-    pose proof (HWF_SWF _ Hroot) as [Hwf Hwov].
-    destruct Hwf as (W1 & W2 & W3 & W4 & W5). simpl node_toks in *. simpl root_sid in W2.
-    set (A := Tree c s T kids d) in *.
-    assert (HuA : In (UNode A) (subunits A)) by (unfold A; rewrite subunits_tree; left; reflexivity).
-    destruct (HWF_kid _ _ _ _ _ _ _ _ Hroot (kid_In _ _ _ Ek) Ex) as [Hx Hexx].
-    destruct (kid_split _ _ _ Ek) as (K1 & K2 & EK & Eset).
-    destruct (slot_node_units sl x Ex) as (Eu & El & Esub & Hwith).
-    destruct (Hwith x') as (Eu' & El' & Esub' & Eb').
-    (* the root's own woven structure *)
-    pose proof (Hwov _ HuA) as HwA. unfold A in HwA. simpl unit_toks in HwA. simpl unit_children in HwA.
-    unfold kids_units in HwA. rewrite EK, kids_flat_app, kids_flat_cons, Eu in HwA. simpl app in HwA.
-    destruct (woven_split _ _ _ _ HwA) as (P & Q & ET & HP1 & HQ2 & Hwov').
-    (* x and its replacement *)
-    assert (HxT : forall t, In t (node_toks x) -> In t T).
-    { intros t Ht. rewrite ET. apply in_or_app. right. apply in_or_app. left. exact Ht. }
-    assert (Hxsid : r <> [] -> root_sid x = s).
-    { intro Hr. destruct x as [tx|cx sx Tx kx dx]; [destruct r; [contradiction|discriminate]|].
-      assert (Hux : In (UNode (Tree cx sx Tx kx dx)) (subunits A)).
-      { unfold A. rewrite subunits_tree. right. apply In_kids_flat. exists f, sl. split; [apply kid_In; exact Ek|].
-        rewrite Esub, subunits_tree. left. reflexivity. }
-      destruct (W2 _ Hux) as (Hs & _). simpl in Hs. inversion Hs. reflexivity. }
-    destruct (IH x new x' old s Hfr Hx Hsel Epx Hnew Hexn Hsidn Hxsid) as [Ihwf Itoks Itin Ilin Isame].
-    { intros t t' Ht Ht'. apply Hfresh; auto. }
-    destruct Itoks as (px & qx & Etx & Etx').
-    pose proof (HWF_SWF _ Hx) as Hswfx. pose proof (HWF_SWF _ Ihwf) as Hswfx'.
-    destruct (node_ends x Hswfx Hexx) as [Hendx Hnex].
-    assert (Hexx' : exempt (UNode x') = false).
-    { destruct r as [|st' r']; [simpl in Epx; inversion Epx; subst; exact Hexn|].
-      destruct Isame as (_ & He & _); [discriminate|]. rewrite He. exact Hexx. }
-    destruct (node_ends x' Hswfx' Hexx') as [Hendx' Hnex'].
-    assert (ET' : T' = P ++ node_toks x' ++ Q).
-    { rewrite ET in Eri, W1. rewrite (replace_infix_spec P (node_toks x) Q (node_toks x') W1 Hnex) in Eri.
-      inversion Eri. reflexivity. }
-    set (kids' := set_kid kids f (slot_with sl x')) in *.
-    set (A' := Tree c s T' kids' d).
-    assert (EK' : kids' = K1 ++ (f, slot_with sl x') :: K2) by (unfold kids'; apply Eset).
-    assert (Hsidx' : forall cx sx Tx kx dx, x' = Tree cx sx Tx kx dx -> sx = s).
-    { intros cx sx Tx kx dx E. destruct r as [|st' r'].
-      - simpl in Epx. inversion Epx as [En]. rewrite <- En in E. eapply Hsidn. exact E.
-      - destruct Isame as (Hs & _); [discriminate|]. rewrite Hxsid in Hs by discriminate. rewrite E in Hs. exact Hs. }
-    (* leaves decomposition *)
-    assert (ELA : leaves A = kids_flat slot_leaves K1 ++ leaves x ++ kids_flat slot_leaves K2).
-    { unfold A. rewrite leaves_tree, EK, kids_flat_app, kids_flat_cons, El. reflexivity. }
-    assert (ELA' : leaves A' = kids_flat slot_leaves K1 ++ leaves x' ++ kids_flat slot_leaves K2).
-    { unfold A'. rewrite leaves_tree, EK', kids_flat_app, kids_flat_cons, El'. reflexivity. }
-    assert (Hsib : forall t, In t (kids_flat slot_leaves K1 ++ kids_flat slot_leaves K2) -> In t (P ++ Q)).
-    { intros t Ht. apply in_app_or in Ht. apply in_or_app. destruct Ht as [Ht|Ht].
-      - left. apply In_kids_flat in Ht. destruct Ht as (k & slk & Hin & Ht).
-        assert (Hin' : In (k, slk) kids) by (rewrite EK; apply in_or_app; left; exact Hin).
-        destruct (slot_leaves_in_units _ _ _ _ _ _ _ Hroot Hin' t Ht) as (v & Hv & Htv).
-        apply (HP1 v t); auto. apply In_kids_flat. exists k, slk. auto.
-      - right. apply In_kids_flat in Ht. destruct Ht as (k & slk & Hin & Ht).
-        assert (Hin' : In (k, slk) kids) by (rewrite EK; apply in_or_app; right; right; exact Hin).
-        destruct (slot_leaves_in_units _ _ _ _ _ _ _ Hroot Hin' t Ht) as (v & Hv & Htv).
-        apply (HQ2 v t); auto. apply In_kids_flat. exists k, slk. auto. }
-    destruct Hswfx as [(X1 & X2 & X3 & X4 & X5) Xw]. destruct Hswfx' as [(Y1 & Y2 & Y3 & Y4 & Y5) Yw].
-    pose proof W3 as W3o. pose proof W1 as W1o. rewrite ELA in W3, W4, W5. rewrite ET in W1, W4, W5.
-    destruct (mid_conditions P (node_toks x) (node_toks x') Q (kids_flat slot_leaves K1) (leaves x) (leaves x')
-                (kids_flat slot_leaves K2) (node_toks new) W1 W3 W4 W5 Hsib X4 Y1 Y3 Y4 Y5 Itin Ilin)
-      as (C1 & C3 & C4 & C5).
-    { intros t t' Ht Ht'. apply Hfresh; auto. rewrite ET. exact Ht'. }
-    (* units of A' *)
-    assert (Hunits' : forall u, In u (proper_units A') -> In u (proper_units A) \/ In u (subunits x')).
-    { intros u Hu. unfold A' in Hu. simpl proper_units in Hu.
-      rewrite EK', kids_flat_app, kids_flat_cons, Esub' in Hu. unfold A. simpl proper_units.
-      rewrite EK, kids_flat_app, kids_flat_cons.
-      apply in_app_or in Hu. destruct Hu as [Hu|Hu]; [left; apply in_or_app; left; exact Hu|].
-      apply in_app_or in Hu. destruct Hu as [Hu|Hu]; [right; exact Hu|left].
-      apply in_or_app. right. apply in_or_app. right. exact Hu. }
-    assert (Hunits : forall u, In u (subunits A') ->
-              u = UNode A' \/ In u (proper_units A) \/ In u (subunits x')).
-    { intros u Hu. unfold A' in Hu. rewrite subunits_tree in Hu. destruct Hu as [E|Hu]; [left; auto|right].
-      apply Hunits'. exact Hu. }
-    assert (Hprop : forall u, In u (proper_units A) -> In u (subunits A))
-      by (intros u Hu; unfold A; rewrite subunits_tree; right; exact Hu).
-    assert (EU' : kids_units kids' = kids_flat slot_units K1 ++ node_toks x' :: kids_flat slot_units K2).
-    { unfold kids_units. rewrite EK', kids_flat_app, kids_flat_cons, Eu'. reflexivity. }
-    assert (HneT' : T' <> []).
-    { rewrite ET'. intro E0. apply app_eq_nil in E0. destruct E0 as [_ E0]. apply app_eq_nil in E0. destruct E0. auto. }
-    assert (HflA' : first_last cs (UNode A')).
-    { destruct (W2 _ HuA) as (_ & HflA & _). destruct (exempt (UNode A)) eqn:HeA.
-      - split; [exact HneT'|]. left. exact HeA.
-      - apply ends_first_last; [exact HneT'|].
-        unfold A'. simpl unit_slot. simpl unit_toks. unfold kids'.
-        unfold A in W3o. rewrite leaves_tree in W3o.
-        apply (tree_ends cs Hok c s T T' kids d f sl (slot_with sl x') P (node_toks x) (node_toks x') Q
-                 Ek ET ET' Hnex Hnex' W1o W3o).
-        + destruct Hendx as (m0 & H0). exists m0. intros m sd Hm. rewrite (slot_node_border sl x Ex). auto.
-        + destruct Hendx' as (m0 & H0). exists m0. intros m sd Hm. rewrite Eb'. auto.
-        + exact (first_last_ends cs (UNode A) HflA HeA). }
-    assert (HswfA' : SWF cs A').
-    { split.
-      - unfold WF. simpl node_toks. simpl root_sid. rewrite ELA', ET'.
-        split; [exact C1|]. split; [|split; [exact C3|split; [exact C4|exact C5]]].
-        intros u Hu. destruct (Hunits u Hu) as [E|[Hu'|Hu']].
-        + subst u. split; [reflexivity|]. split; [exact HflA'|].
-          unfold A'. simpl unit_toks. simpl unit_children. apply woven_local_ok.
-          rewrite EU', ET'. apply Hwov'.
-        + apply W2. apply Hprop. exact Hu'.
-        + destruct x' as [tx'|cx sx Tx kx dx]; [destruct Hu'|].
-          rewrite <- (Hsidx' _ _ _ _ _ eq_refl). apply Y2. exact Hu'.
-      - intros u Hu. destruct (Hunits u Hu) as [E|[Hu'|Hu']].
-        + subst u. unfold A'. simpl unit_toks. simpl unit_children. rewrite EU', ET'. apply Hwov'.
-        + apply Hwov. apply Hprop. exact Hu'.
-        + apply Yw. exact Hu'. }
-    constructor.
-    + split.
-      * intros n Hn. destruct (Hunits _ Hn) as [E|[Hu'|Hu']].
-        -- inversion E. exact HswfA'.
-        -- apply (proj1 Hroot). apply Hprop. exact Hu'.
-        -- apply (proj1 Ihwf). exact Hu'.
-      * intros u Hu. destruct (Hunits' _ Hu) as [Hu'|Hu'].
-        -- apply (proj2 Hroot). exact Hu'.
-        -- destruct x' as [tx'|cx sx Tx kx dx]; [destruct Hu'|]. rewrite subunits_tree in Hu'.
-           destruct Hu' as [E|Hu']; [subst u; exact Hexx'|apply (proj2 Ihwf); exact Hu'].
-    + exists (P ++ px), (qx ++ Q). simpl node_toks. rewrite ET, ET', Etx, Etx', <- !app_assoc. auto.
-    + simpl node_toks. rewrite ET'. intros t Ht. apply in_app_or in Ht. destruct Ht as [Ht|Ht].
-      * left. rewrite ET. apply in_or_app. left. exact Ht.
-      * apply in_app_or in Ht. destruct Ht as [Ht|Ht].
-        -- destruct (Itin t Ht) as [H0|H0]; [left; apply HxT; exact H0|right; exact H0].
-        -- left. rewrite ET. apply in_or_app. right. apply in_or_app. right. exact Ht.
-    + fold A'. rewrite ELA'. intros t Ht. fold A. rewrite ELA. apply in_app_or in Ht. destruct Ht as [Ht|Ht].
-      * left. apply in_or_app. left. exact Ht.
-      * apply in_app_or in Ht. destruct Ht as [Ht|Ht].
-        -- destruct (Ilin t Ht) as [H0|H0]; [left; apply in_or_app; right; apply in_or_app; left; exact H0|right; exact H0].
-        -- left. apply in_or_app. right. apply in_or_app. right. exact Ht.
-    + intros _. split; [reflexivity|]. split; [reflexivity|]. do 5 eexists. reflexivity.
-Qed.
 End Plug.
 
 (* ---- checkers ---------------------------------------------------------------------------------------- *)
@@ -814,51 +651,3 @@ Proof.
   intros cs [t|c s T kids d] [H _]; [apply WF_leaf|]. apply SWF_WF. apply H. rewrite subunits_tree. left. reflexivity.
 Qed.
 
-(* ---- edits and histories ------------------------------------------------------------------------------ *)
-Section History.
-Variable cs : classes_t.
-Hypothesis Hok : classes_ok cs.
-
-(* replace the sub-tree at a path (through required / present optional fields) by a hereditarily
-   well-formed tree that already lives in the root's store and whose tokens are new objects *)
-Inductive edit : node -> node -> Prop :=
-| edit_plug : forall root p old new root',
-    Forall field_step p -> select root p = Some old -> plug root p new = Some root' ->
-    HWF cs new -> exempt (UNode new) = false ->
-    (forall c s T k d, new = Tree c s T k d -> s = root_sid root) ->
-    (forall t t', In t (node_toks new) -> In t' (node_toks root) -> k_id t <> k_id t') ->
-    edit root root'.
-
-Inductive edits : node -> node -> Prop :=
-| edits_nil : forall root, edits root root
-| edits_cons : forall a b c, edit a b -> edits b c -> edits a c.
-
-Theorem edit_HWF : forall a b, HWF cs a -> edit a b -> HWF cs b.
-Proof.
-  intros a b Ha He. destruct He as [root p old new root' Hfp Hsel Hplug Hnew Hex Hsid Hfresh].
-  eapply (pl_hwf cs root old new root' p). eapply (plug_fields cs Hok p root new root' old (root_sid root)); eauto.
-Qed.
-
-Theorem history_HWF : forall a b, HWF cs a -> edits a b -> HWF cs b /\ WF cs b.
-Proof.
-  intros a b Ha He. induction He as [root|a b c Hab Hbc IH].
-  - split; [exact Ha|apply HWF_WF; exact Ha].
-  - apply IH. eapply edit_HWF; eauto.
-Qed.
-
-(* the frame: only the replaced sub-tree's tokens change, in place *)
-Theorem plug_frame : forall root root' p0 old0 new0, HWF cs root ->
-  Forall field_step p0 -> select root p0 = Some old0 -> plug root p0 new0 = Some root' ->
-  HWF cs new0 -> exempt (UNode new0) = false ->
-  (forall c s T k d, new0 = Tree c s T k d -> s = root_sid root) ->
-  (forall t t', In t (node_toks new0) -> In t' (node_toks root) -> k_id t <> k_id t') ->
-  exists pre post, node_toks root = pre ++ node_toks old0 ++ post /\ node_toks root' = pre ++ node_toks new0 ++ post.
-Proof.
-  intros root root' p0 old0 new0 Hroot Hfp Hsel Hplug Hnew Hex Hsid Hfresh.
-  eapply (pl_toks cs root old0 new0 root' p0). eapply (plug_fields cs Hok p0 root new0 root' old0 (root_sid root)); eauto.
-Qed.
-
-(* WF forces re-attachment: a tree containing a model of another store is not WF *)
-Theorem foreign_sid_not_WF : forall n s, In s (sids n) -> s <> root_sid n -> ~ WF cs n.
-Proof. intros n s Hin Hne Hwf. apply Hne. eapply WF_sids; eauto. Qed.
-End History.
